@@ -744,6 +744,25 @@ func recurseDescendents(seq *sequence, v reflect.Value) {
 }
 
 func evalGroup(node *jparse.GroupNode, data reflect.Value, env *environment) (reflect.Value, error) {
+
+	// The items of a path are grouped as the path selects them:
+	// eval would replace a sequence of one item by that item,
+	// and an item that is an array (e.g. made by an array
+	// constructor step) would be taken for the list of items.
+	if path, ok := node.Expr.(*jparse.PathNode); ok {
+
+		v, err := evalPath(path, data, env)
+		if err != nil {
+			return undefined, err
+		}
+
+		if seq, ok := asSequence(v); ok {
+			v = reflect.ValueOf(seq.values)
+		}
+
+		return evalObject(node.ObjectNode, v, env)
+	}
+
 	items, err := eval(node.Expr, data, env)
 	if err != nil {
 		return undefined, err
